@@ -2,6 +2,7 @@ import Lean.Data.Json
 import Genq.Driver.Util
 import Genq.Model.Http
 import Genq.Model.HttpResp
+import Genq.Model.Names
 open Lean
 namespace Genq.Driver
 
@@ -56,11 +57,59 @@ def opResp (op : String) (j : Json) : Except String Json := do
     return Json.mkObj [("dataNonNil", h.dataNonNil), ("errUnchanged", h.errUnchanged), ("requests", h.requests)]
   | _ => throw s!"unknown op {op}"
 
+def parseCasing (s : String) : Except String (Option Names.Casing) :=
+  match s with
+  | "" => .ok none
+  | "default" => .ok (some .default)
+  | "raw" => .ok (some .raw)
+  | "auto_camel_case" => .ok (some .autoCamelCase)
+  | s => .error s!"casing {s}"
+
+def asciiName (s : String) : Except String (List Char) :=
+  if s.toList.all (fun c => c.isAlphanum || c == '_') then .ok s.toList else .error s!"non-ASCII-identifier name {s}"
+
+def getCasingCfg (j : Json) : Except String Names.CasingCfg := do
+  let d ← parseCasing ((j.getObjValAs? String "casingDefault").toOption.getD "")
+  let a ← parseCasing ((j.getObjValAs? String "casingAllEnums").toOption.getD "")
+  let es ← match j.getObjVal? "casingEnums" with
+    | .ok (.obj kvs) => kvs.toList.mapM fun (k, v) => do
+        let c ← parseCasing (← v.getStr?)
+        match c with
+        | some c => pure (k.toList, c)
+        | none => throw "empty per-enum casing"
+    | _ => pure []
+  return { default := d, allEnums := a, enums := es }
+
+def opNames (op : String) (j : Json) : Except String Json := do
+  match op with
+  | "names.enum" =>
+    let cfg ← getCasingCfg j
+    let gql ← asciiName (← getStr j "gqlName")
+    let goName ← match j.getObjValAs? String "goName" with
+      | .ok s => asciiName s
+      | .error _ => pure (Names.enumGoTypeName cfg gql)
+    let vals ← (← getArr j "values").toList.mapM fun v => do asciiName (← v.getStr?)
+    match Names.convertEnum cfg goName gql vals with
+    | .ok cs => return Json.mkObj [("ok", true), ("goType", str goName),
+        ("consts", Json.arr (cs.map fun c => Json.arr #[str c.goName, str c.gqlName]).toArray)]
+    | .conflict a b n => return Json.mkObj [("ok", false), ("goType", str goName), ("val", str a), ("other", str b), ("goName", str n)]
+  | "names.fn" =>
+    let s ← asciiName (← getStr j "s")
+    let r ← match (← getStr j "fn") with
+      | "upperFirst" => pure (Names.upperFirst s)
+      | "lowerFirst" => pure (Names.lowerFirst s)
+      | "snakeToCamel" => pure (Names.snakeToCamel s)
+      | "goConstName" => pure (Names.goConstName s)
+      | f => throw s!"fn {f}"
+    return Json.mkObj [("out", str r)]
+  | _ => throw s!"unknown op {op}"
+
 def dispatch (j : Json) : Json :=
   let r : Except String Json := do
     let op ← getStr j "op"
     if op.startsWith "http." then opHttp op j
     else if op.startsWith "resp." then opResp op j
+    else if op.startsWith "names." then opNames op j
     else throw s!"unknown op {op}"
   let idf := match j.getObjVal? "id" with | .ok v => [("id", v)] | .error _ => []
   match r with
